@@ -147,10 +147,84 @@ def guard_facts(ev, fi, node):
     return facts, subs, applicable
 
 
+def region_test(rep, prog, fn, ev, r, tag, comps, p, a, b, c, keys):
+    """The region test under which a vertex / edge result is returned, as polynomials in the coordinates, against the Voronoi
+    region of that feature.  Only the conjuncts of the test that encloses the result are used (what earlier tests excluded is not
+    needed: each of these regions is characterised by its own inequalities)."""
+    from ..model import facts_at
+    cs = [sp.sympify(x) for x in comps]
+    zero = [i for i, x in enumerate(cs) if x == 0]
+    one = [i for i, x in enumerate(cs) if x == 1]
+    V = [a, b, c]
+
+    def vec(u, v):
+        return [u.f[k] - v.f[k] for k in keys]
+
+    def dot(u, v):
+        return sum(x * y for x, y in zip(u, v))
+
+    def cross(u, v):
+        return [u[1] * v[2] - u[2] * v[1], u[2] * v[0] - u[0] * v[2], u[0] * v[1] - u[1] * v[0]]
+    names = "abc"
+    if len(zero) == 2 and len(one) == 1:
+        X = one[0]
+        others = [i for i in range(3) if i != X]
+        want = [dot(vec(V[Y], V[X]), vec(p, V[X])) for Y in others]
+        label = "vertex %s" % names[X].upper()
+        desc = ["(%s-%s).(p-%s) <= 0" % (names[Y], names[X], names[X]) for Y in others]
+    elif len(zero) == 1:
+        Z = zero[0]
+        X, Y = [(1, 2), (2, 0), (0, 1)][Z]      # cyclic order of the edge opposite to Z
+        n = cross(vec(b, a), vec(c, a))
+        want = [-dot(vec(p, V[X]), vec(V[Y], V[X])), -dot(vec(p, V[Y]), vec(V[X], V[Y])), dot(n, cross(vec(V[X], p), vec(V[Y], p)))]
+        label = "edge %s%s" % (names[X].upper(), names[Y].upper())
+        desc = ["(p-%s).(%s-%s) >= 0" % (names[X], names[Y], names[X]), "(p-%s).(%s-%s) >= 0" % (names[Y], names[X], names[Y]), "n.((%s-p)x(%s-p)) <= 0" % (names[X], names[Y])]
+    else:
+        return      # interior result: non-negativity is what C05.nonneg-under-guard decides
+    fi = prog.index(fn)
+    got = []
+    for atom, truth in facts_at(fn, fi, r):
+        if not truth:
+            continue
+        if atom.get("k") != "BinaryOperator" or atom.get("op") not in ("<=", "<", ">=", ">"):
+            rep.note("C05.region-test: %s (%s) at %s is returned under a condition that is not a conjunction of comparisons (%s, e.g. a flag assigned in several places): its region test is not decided" % (tag, label, prog.loc(fn, r), short(atom, 50)))
+            return
+        l, rr = sp.sympify(ev.ev(atom["c"][0])), sp.sympify(ev.ev(atom["c"][1]))
+        g = (l - rr) if atom["op"] in ("<=", "<") else (rr - l)
+        for _ in range(8):
+            g, ch = ev.expand_once(g)
+            if not ch:
+                break
+        got.append((g, atom))
+    if not got:
+        raise AnalysisBroken("%s: %s (%s) is not returned under a conjunction of comparisons this checker can read" % (prog.loc(fn, r), tag, label))
+    unmatched_want = list(range(len(want)))
+    extra = []
+    for g, atom in got:
+        hit = None
+        for i in unmatched_want:
+            if ev.prove_zero(g - want[i]):
+                hit = i
+                break
+        if hit is None:
+            # an inequality already among the wanted ones (stated twice) is harmless
+            if not any(ev.prove_zero(g - w_) for w_ in want):
+                extra.append(atom)
+        else:
+            unmatched_want.remove(hit)
+    if not unmatched_want and not extra:
+        rep.ok("C05.region-test", prog, fn, r, "%s: %s is returned exactly under %s" % (tag, label, " and ".join(desc)))
+    else:
+        rep.violation("C05.region-test", prog, fn, r, "%s: region test of %s is not its Voronoi region" % (tag, label),
+                      "%s designates %s but is returned under a test that %s%s: the Voronoi region of %s is %s; points of that region fall through to a formula of another feature (negative coordinates, a point outside the triangle) or points of another region are assigned to %s"
+                      % (tag, label, ("lacks " + ", ".join(desc[i] for i in unmatched_want)) if unmatched_want else "", ((" and " if unmatched_want else "") + "adds " + ", ".join("'%s'" % short(x, 40) for x in extra)) if extra else "", label, " and ".join(desc), label))
+
+
 def declare(rep):
     rep.rule("C05.nonneg-under-guard", "for a return inside a region test that is a conjunction of sign conditions, the returned components are >= 0 by sign analysis of those conditions", floor=4)
     rep.rule("C05.bary-sum", "the returned barycentric components sum to 1 (identity)", floor=7)
     rep.rule("C05.distance-consistent", "the returned squared distance equals |p - (b0*a+b1*b+b2*c)|^2 for the returned components (identity)", floor=7)
+    rep.rule("C05.region-test", "a result that designates a vertex X (resp. a point of edge XY) is returned under exactly the Voronoi-region test of that feature: (Y-X).(P-X) <= 0 and (Z-X).(P-X) <= 0 (resp. (P-X).(Y-X) >= 0, (P-Y).(X-Y) >= 0 and n.((X-P)x(Y-P)) <= 0), decided as polynomial identities in the coordinates", floor=4)
     rep.rule("C05.translation", "returned distance and components are invariant under a common translation of p,a,b,c", floor=7)
 
 
@@ -226,6 +300,7 @@ def run(rep, prog, tier):
                     rep.violation("C05.nonneg-under-guard", prog, fn, r, "%s: region test does not imply non-negative coordinates" % tag,
                                   "%s returns component(s) %s whose non-negativity does not follow from its region test (%s): for some points the kernel designates a point outside the triangle (on the extension of an edge) and under-estimates the distance"
                                   % (tag, ", ".join(re_name(b) for b in bad_c), ", ".join("%s %s 0" % (re_name(a), ">=" if s_ == "+" else "<=") for a, s_ in facts.items()) or "no sign condition"))
+            region_test(rep, prog, fn, ev, r, tag, comps, p, a, bb, c, keys)
             inv = S.Invariance(ev, lambda n: n.split(".")[0] in {q["name"] for q in fn["params"]})
             bad = None
             if not inv.scalar_weight0(d2):
